@@ -136,6 +136,10 @@ pub struct Alph {
     pub pub_any_status: bool,
     /// manual mode: the application may defer the PUBREL it owes after PUBREC
     pub defer_pubrel: bool,
+    /// probe regulate_for_store from every state (v5)
+    pub regulate: bool,
+    /// C11: fire every packet kind at send() from every reachable state
+    pub send_probes: bool,
 }
 
 #[derive(Clone, Debug)]
@@ -235,6 +239,10 @@ pub enum Act {
     PPartial(u8),
     /// raw stimulus number i of the configuration's stimulus list (probe)
     PRaw(u16),
+    /// probe: regulate_for_store on (topic index or empty, alias)
+    Regulate { t: Option<u8>, a: u16 },
+    /// probe: hand packet kind i of `c11::probe_kinds()` to send() (C11 fan-out from every state)
+    SendProbe(u8),
 }
 
 pub fn act_kind(a: &Act) -> String {
@@ -269,6 +277,8 @@ pub fn act_kind(a: &Act) -> String {
         Act::PAuth => "PAuth".into(),
         Act::PPartial(_) => "PPartial".into(),
         Act::PRaw(_) => "PRaw".into(),
+        Act::Regulate { t, .. } => format!("Regulate({})", if t.is_some() { "topic+alias" } else { "empty+alias" }),
+        Act::SendProbe(i) => format!("SendProbe({})", crate::props::c11::probe_kinds().get(*i as usize).map(|k| k.0).unwrap_or("?")),
     }
 }
 
@@ -583,6 +593,56 @@ impl<P: Pid> Ep<P> {
             }
             if calls.last().map(|c| c.has_close()).unwrap_or(false) {
                 break;
+            }
+        }
+    }
+
+    /// C11 fan-out: a send the MQTT rules refuse in this state (whatever the session flags are) must
+    /// return exactly one error (+ release of a fresh identifier) and leave the object as it was
+    fn step_send_probe(&mut self, i: usize, out: &mut StepOut) {
+        use crate::props::c11::{expect, owns_fresh_id, probe_kinds, with_id, Exp, St as CSt};
+        let kinds = probe_kinds();
+        let (kname, ap0) = &kinds[i];
+        let st = match self.m.st {
+            St::Disc => CSt::Disc,
+            St::Connecting => CSt::Connecting,
+            St::Connected => CSt::Connected,
+        };
+        let ver = self.m.ver.or(self.cfg.ver);
+        // only cells that are refusals under both values of the store flag are judged here
+        let e1 = expect(self.cfg.role, ver, st, true, self.cfg.offline, ap0);
+        let e2 = expect(self.cfg.role, ver, st, false, self.cfg.offline, ap0);
+        let mut rules = Rules { out, cfg: self.cfg.clone(), act: Act::SendProbe(i as u8) };
+        if e1 != Exp::Refuse || e2 != Exp::Refuse {
+            rules.label("c11.fanout-allowed");
+            return;
+        }
+        let pre_m = self.m.clone();
+        let s0 = self.conn.snap();
+        let mut ap = ap0.clone();
+        let mut fresh = None;
+        if owns_fresh_id(ap0) {
+            match self.conn.acquire() {
+                Ok(id) => {
+                    fresh = Some(id);
+                    ap = with_id(ap0, id);
+                }
+                Err(_) => return,
+            }
+        }
+        let s1 = self.conn.snap();
+        let evs = self.conn.send(bridge::build::<P>(&ap).ok().expect("probe packet"));
+        let s2 = self.conn.snap();
+        rules.label("c11.fanout-refusal-checked");
+        let errs = evs.iter().filter(|e| matches!(e, Ev::Error(_))).count();
+        let shape_ok = errs == 1 && evs.len() == 1 + fresh.is_some() as usize && fresh.map(|id| evs.iter().any(|e| matches!(e, Ev::Released(x) if *x == id))).unwrap_or(true);
+        if !shape_ok {
+            rules.viol_sig("c11.refusal-events", format!("c11.refusal-events|{kname}|{:?}|fanout", self.m.st), &pre_m, format!("{kname} in status {:?}: a refused send must return exactly one error event{}: got {:?}", self.m.st, if fresh.is_some() { " plus the release of the packet's identifier" } else { "" }, evs.iter().map(|e| e.short()).collect::<Vec<_>>()));
+        } else {
+            let base = if fresh.is_some() { &s0 } else { &s1 };
+            if &s2 != base {
+                let (names, text) = crate::util::debug_diff(base, &s2);
+                rules.viol_sig("c11.refusal-left-state", format!("c11.refusal-left-state|{kname}|{:?}|{}", self.m.st, names.join("+")), &pre_m, format!("{kname} refused in status {:?} but the connection differs afterwards in {names:?}: {text}", self.m.st));
             }
         }
     }
@@ -953,10 +1013,23 @@ impl<P: Pid> World for Ep<P> {
 
     fn probes(&self) -> Vec<Act> {
         let m = &self.m;
-        if self.cfg.stimuli.is_empty() || m.close_pending || m.partial_pending {
-            return vec![];
+        let mut v: Vec<Act> = vec![];
+        if self.cfg.alph.regulate && self.v5() {
+            for a in 1..=3u16 {
+                v.push(Act::Regulate { t: None, a });
+                v.push(Act::Regulate { t: Some(0), a });
+            }
         }
-        (0..self.cfg.stimuli.len()).map(|i| Act::PRaw(i as u16)).collect()
+        if self.cfg.alph.send_probes && !m.close_pending && (m.ver.is_some() || self.cfg.ver.is_some()) {
+            for i in 0..crate::props::c11::probe_kinds().len() {
+                v.push(Act::SendProbe(i as u8));
+            }
+        }
+        if self.cfg.stimuli.is_empty() || m.close_pending || m.partial_pending {
+            return v;
+        }
+        v.extend((0..self.cfg.stimuli.len()).map(|i| Act::PRaw(i as u16)));
+        v
     }
 
     fn label(a: &Act) -> String {
@@ -966,6 +1039,35 @@ impl<P: Pid> World for Ep<P> {
     fn step(&mut self, a: &Act, out: &mut StepOut) {
         if let Act::PRaw(i) = a {
             return self.step_raw(*i as usize, out);
+        }
+        if let Act::SendProbe(i) = a {
+            return self.step_send_probe(*i as usize, out);
+        }
+        if let Act::Regulate { t, a: alias } = a {
+            // regulate_for_store: the copy that would be stored carries the full topic and no alias;
+            // an alias the receiver does not know on this connection cannot be regulated
+            let ap = self.publish_ap(1, t.unwrap_or(0), if t.is_some() { Al::Reg(*alias) } else { Al::Use(*alias) }, Some(1), false);
+            let got = self.conn.regulate_for_store(&ap);
+            let mut rules = Rules { out, cfg: self.cfg.clone(), act: a.clone() };
+            let expect: Option<Vec<u8>> = match t {
+                Some(i) => Some(TOPICS[*i as usize].to_vec()),
+                None => self.m.peer_alias.get(alias).cloned(),
+            };
+            match (&got, &expect) {
+                (Ok(AP::Publish { topic, props, .. }), Some(want)) => {
+                    rules.label("c13.regulate-ok");
+                    if topic != want || props.iter().any(|p| p.id == 0x23) {
+                        let m = self.m.clone();
+                        rules.viol("c13.regulate", &m, format!("regulate_for_store must yield the full topic {:?} and no alias, got topic {:?} props {:?}", String::from_utf8_lossy(want), String::from_utf8_lossy(topic), props));
+                    }
+                }
+                (Err(_), None) => rules.label("c13.regulate-refused"),
+                (g, w) => {
+                    let m = self.m.clone();
+                    rules.viol("c13.regulate", &m, format!("regulate_for_store(empty topic + alias {alias}): got {:?}, the receiver's binding on this connection is {:?}", g.as_ref().map(crate::conn::ap_short), w.as_ref().map(|x| String::from_utf8_lossy(x).to_string())));
+                }
+            }
+            return;
         }
         crate::rules::reset();
         let pre = self.conn.snap();
